@@ -2,6 +2,7 @@ package main
 
 import (
 	"go/ast"
+	"go/types"
 	"strings"
 	"testing"
 )
@@ -297,6 +298,30 @@ func viaLocal(n *nic) {
 	switch { case s == A: s = X; case s == B: s = Y; case s == C: s = Z }
 	n.Status = s
 }
+func translate(s string) string {
+	switch s {
+	case A:
+		return X
+	case B:
+		return Y
+	case C:
+		return Z
+	}
+	return s
+}
+func translateIf(s string) string {
+	if s == A { return X }
+	if s == B { return Y }
+	if s == C { return Z }
+	return s
+}
+func viaHelper(n *nic) {
+	n.Status = translate(n.Status)
+}
+func viaHelperIf(n *nic) {
+	m := &nic{Status: translateIf(n.Status)}
+	n.Status = m.Status
+}
 func cascades(n *nic) {
 	s := n.Status
 	if s == A { s = X }
@@ -310,6 +335,12 @@ func cascades(n *nic) {
 	run := func(name string) map[string]string {
 		fi := fnOf(t, p, name)
 		ce := &constEval{info: fi.Info(), maps: collectTables(fi.Info(), fi.Pkg.Syntax)}
+		ce.body = func(f *types.Func) (*ast.FuncDecl, *types.Info) {
+			if g := p.FuncOf(f); g != nil {
+				return g.Decl, g.Info()
+			}
+			return nil, nil
+		}
 		got := map[string]string{}
 		for in := range want {
 			env, _ := ce.stmts(fi.Decl.Body.List, constEnv{"n.Status": in})
@@ -317,7 +348,7 @@ func cascades(n *nic) {
 		}
 		return got
 	}
-	for _, name := range []string{"viaSwitch", "viaElse", "viaTable", "viaLocal"} {
+	for _, name := range []string{"viaSwitch", "viaElse", "viaTable", "viaLocal", "viaHelper", "viaHelperIf"} {
 		got := run(name)
 		for in, w := range want {
 			if got[in] != w {
